@@ -2,7 +2,14 @@
 import json, os, sys
 HERE = os.path.dirname(os.path.dirname(os.path.abspath(__file__)))
 sys.path.insert(0, HERE)
-from harness.meta import META, NOT_APPLICABLE, HOOK_COMMITS
+import importlib
+from harness.meta import NOT_APPLICABLE, HOOK_COMMITS
+META = {}
+for f in sorted(os.listdir(os.path.join(HERE, 'harness', 'props'))):
+    if f.startswith('c') and f.endswith('.py') and f[1:-3].isdigit():
+        mod = importlib.import_module('harness.props.' + f[:-3])
+        if getattr(mod, 'META', None):
+            META[f[:-3].upper()] = mod.META
 props = [json.loads(l)['id'] for l in open(os.path.join(HERE, 'properties.jsonl'))]
 checks = []
 for pid in props:
